@@ -146,7 +146,8 @@ def jobs(tier, N=None):
     if os.environ.get('C16_TRY_ALPHA'):
         nm, n = os.environ['C16_TRY_ALPHA'].split(','); return [small_alphabet_job(nm, int(n))]
     N = N or (4 if tier == 'quick' else 5)
-    return [job('isIntString', 'opensmt::isIntString', H_INT, N + 1), job('isRealString', 'opensmt::isRealString', H_REAL, N + 1),
+    NC = 16 if tier == 'quick' else 32      # the classifiers have no arithmetic: all byte strings of 16 / 32 bytes take seconds (the reference reader accumulates in 128 bits: 64 digits would wrap)
+    return [job('isIntString', 'opensmt::isIntString', H_INT, NC), job('isRealString', 'opensmt::isRealString', H_REAL, NC),
             job('stringToRational', 'opensmt::stringToRational', H_CONV, N, weight=20),
             # (longer literals were tried and are NOT registered: all strings of 6 bytes exhaust MiniSat's and cadical's memory; one fixed shape d.ddddd of 7 bytes, with a static conversion
             #  buffer and shift-add value arithmetic, still does not finish in 30 min)
